@@ -146,8 +146,25 @@ def run(ctx):
         ctx.ob('C22-CROSS.foreign-session-object-is-rejected', f, tests[0].stmt if tests else f.node, ok,
                '' if ok else '%s no longer rejects an object that belongs to another session/thread' % qual)
 
+    # the loaders: no way out of the function bypasses the check, except the enumerated returns that touch nothing (same scheme as C32's NOOP_RETURNS)
+    EARLY = {'Set.load': {'setdata.is_fully_loaded and not attr.is_volatile': 'nothing is loaded or changed: the cached collection is handed back as it is'},
+             'Entity._load_': {}, 'Entity.load': {}}
+    for qual, allowed_src in EARLY.items():
+        f = repo.fn(CORE, qual); g = cg.cfg(f)
+        tests = [t for t in g.nodes if t.kind == 'test' and re.search(r'\bis not\b', norm(t.ast)) and ('_session_cache_' in norm(t.ast) or '_get_cache()' in norm(t.ast))]
+        allowed = {norm(ast.parse(k, mode='eval').body, limit=1000) for k in allowed_src}
+        for k, why in allowed_src.items(): ctx.exception('C22-CROSS', '%s: `%s`' % (qual, k), why)
+        an = {n.id for n in g.nodes if n.kind == 'test' and norm(n.ast, limit=1000) in allowed}
+        eo = lambda x, y, lab: not (x in an and lab == 'T')
+        ok = bool(tests) and g.exit.id not in g.reach([g.entry], avoid=tests, edge_ok=eo)
+        pth = None if ok else g.path(g.entry, g.exit, avoid=tests, edge_ok=eo)
+        ctx.ob('C22-CROSS.loader-cannot-return-without-the-session-check', f, tests[0].stmt if tests else f.node, ok,
+               '' if ok else '%s can return normally without comparing the object\'s session with the current thread\'s (%s): an object of another thread\'s session is '
+               'accepted and its session state is changed from this thread' % (qual, g.fmt_path(pth) if pth else 'no check'), node=tests[0].stmt if tests else None)
+
 
 MUTANTS = [
+    dict(id='C22-x1', file='pony/orm/core.py', fn='Set.load', old="        if cache is not database._get_cache():\n            throw(TransactionError, \"Transaction of object %s belongs to different thread\")\n\n        if items:", new="        if items:", expect='C22-CROSS.loader'),
     dict(id='C22-m1', file='pony/orm/core.py', fn='Query._get_translator', old='database._translator_cache.pop(query_key, None)', new='del database._translator_cache[query_key]', expect='C22-ATOM'),
     dict(id='C22-m2', file='pony/orm/core.py', fn='Query.__init__', old='                database._translator_cache[query._key] = translator', new='                translator = database._translator_cache.setdefault(query._key, translator)', expect='C22-ADOPT'),
     dict(id='C22-m3', file='pony/orm/core.py', old='class DbLocal(localbase):', new='class DbLocal(object):', expect='C22-LOCAL'),
